@@ -1,6 +1,7 @@
 package props
 
 import (
+	"errors"
 	"encoding/json"
 	"fmt"
 	"strings"
@@ -21,13 +22,13 @@ import (
 func init() {
 	core.Register(&core.Property{
 		ID:   "C19",
-		Rule: "all 146 resource type names x ids/versions over the FHIR id alphabet (length 1..64, plus empty, 65 and illegal characters) x service base URLs {none, http/https, port, nested path, trailing slash} x forms {relative, versioned, absolute, fragment, '#', URN uuid/oid, canonical with |version and #fragment, ''} and byte-mutated neighbours: format->parse returns the components; parse->format->parse is a fixpoint (identical to the input without redundant slashes); rejected strings give errors, never a panic; strong (typed) and weak (uri) references naming one resource give equal LiteralInfo/Identity, reference.Is = true and the same FHIRPath `reference` string; Is is reflexive/symmetric/transitive on generated triples; canonical url|version#fragment splits and reassembles unchanged. distinct_nontrivial = distinct (form, type, base-url class, id class, version present) cases",
+		Rule: "all 146 resource type names x ids/versions over the FHIR id alphabet (length 1..64, plus empty, 65 and illegal characters) x service base URLs {none, http/https, port, nested path, trailing slash} x forms {relative, versioned, absolute, fragment, '#', URN uuid/oid, canonical with |version and #fragment, ''} and byte-mutated neighbours: format->parse returns the components; parse->format->parse is a fixpoint (identical to the input without redundant slashes); rejected strings give errors, never a panic; strong (typed) and weak (uri) references naming one resource give equal LiteralInfo/Identity, reference.Is = true and the same FHIRPath `reference` string; weak references carrying Reference.type (consistent, inconsistent, absent; on REST URLs, URNs and fragments) parsed in sequence on one uri with the bare string re-parsed in between (what is parsed from a reference depends on that reference alone); Is is reflexive/symmetric/transitive on generated triples; canonical url|version#fragment splits and reassembles unchanged. distinct_nontrivial = distinct (form, type, base-url class, id class, version present) cases",
 		Assumptions: []string{"an absolute URL whose path does not match Type/id[/_history/v] may be accepted as a non-REST URI or rejected; it must never yield an identity"},
 		Run:    runC19,
-		Checks: map[string]func(*core.Env, []json.RawMessage){"uri": replayC19URI, "ref": replayC19Ref, "canon": replayC19Canon},
+		Checks: map[string]func(*core.Env, []json.RawMessage){"uri": replayC19URI, "ref": replayC19Ref, "canon": replayC19Canon, "weak": replayC19Weak},
 		Threshold: func(m *core.Merged) []string {
 			var r []string
-			for _, k := range []string{"form:relative", "form:versioned", "form:absolute", "form:fragment", "form:urn", "form:rejected", "form:empty", "strong-weak", "is-law", "canonical", "fhirpath-reference", "typed-constructor", "mutated"} {
+			for _, k := range []string{"form:relative", "form:versioned", "form:absolute", "form:fragment", "form:urn", "form:rejected", "form:empty", "strong-weak", "is-law", "canonical", "fhirpath-reference", "typed-constructor", "mutated", "weak-typed"} {
 				if m.Cover[k] == 0 {
 					r = append(r, "never observed: "+k)
 				}
@@ -119,6 +120,14 @@ func c19URI(env *core.Env, uri string, exp c19Expect, canonicalForm bool) {
 		}
 		if _, has := lit.Identity(); has {
 			env.Violatef("C19/parse/identity-from-urn", "LiteralInfoFromURI(%q) produced an identity", uri)
+		}
+		if t, has := lit.Type(); has {
+			env.Violatef("C19/parse/type-from-urn", "LiteralInfoFromURI(%q) reports the resource type %q although the string names none", uri, t)
+		}
+	}
+	if cls == "fragment" {
+		if t, has := lit.Type(); has {
+			env.Violatef("C19/parse/type-from-fragment", "LiteralInfoFromURI(%q) reports the resource type %q although the string names none", uri, t)
 		}
 	}
 	// format and fixpoint
@@ -526,6 +535,15 @@ func runC19(env *core.Env) {
 			c19URI(env, u, c19Expect{Class: "nonrest"}, true)
 		}
 	}
+	for _, w := range []struct{ uri, typ string }{
+		{"urn:uuid:53fefa32-fcbb-4ff8-8a92-55ee120877b7", ""}, {"urn:oid:1.2.3.4.5", ""}, {"http://other.example/not/a/resource", ""}, {"#a", ""}, {"#", ""},
+		{"Patient/a1", "Patient"}, {"Observation/a1/_history/2", "Observation"}, {"http://h.example/fhir/Patient/a1", "Patient"}, {"https://h.example:8080/Group/g", "Group"},
+		{"urn:uuid:" + fmt.Sprintf("%08x-0000-4000-8000-%012x", rng.Intn(1<<31), rng.Intn(1<<31)), ""}, {"Patient/" + c19ID(rng, 8), "Patient"},
+	} {
+		if mine() {
+			c19Weak(env, w.uri, w.typ, w.typ == "")
+		}
+	}
 	for _, u := range []string{"", "Patient", "Patient/", "/Patient/1", "Foo/1", "patient/1", "Patient/1/_history", "Patient/1/_history/", "Patient/1/_History/2", "Patient/1/2/3", "http://h/ValueSet/v|1.0", "Patient/1#frag", "http://", "http:", "://x", "Patient/1|2", " Patient/1", "Patient/1 "} {
 		if mine() {
 			if u == "" {
@@ -591,6 +609,96 @@ func c19Mutated(env *core.Env, uri string, exp c19Expect) {
 			}
 		}
 	}
+}
+
+// c19Weak: weak (uri) references carrying Reference.type. The information parsed from a reference is a function
+// of that reference alone: the same uri is parsed with different types, in sequence, and bare before and after.
+func c19Weak(env *core.Env, uri string, uriType string, nonrest bool) {
+	defer env.In("weak", uri, uriType, nonrest)()
+	env.Case()
+	env.Cover("weak-typed")
+	type obs struct {
+		err            error
+		typ            string
+		hasT           bool
+		str            string
+		panicked, dead bool
+	}
+	parseRef := func(t string) obs {
+		ref := &dtpb.Reference{Reference: &dtpb.Reference_Uri{Uri: &dtpb.String{Value: uri}}}
+		if t != "" {
+			ref.Type = &dtpb.Uri{Value: t}
+		}
+		var o obs
+		out := env.Guard(fmt.Sprintf("LiteralInfoOf(uri=%q type=%q)", uri, t), func() {
+			lit, err := reference.LiteralInfoOf(ref)
+			o.err = err
+			if err == nil {
+				tt, has := lit.Type()
+				o.typ, o.hasT, o.str = string(tt), has, lit.URIString()
+			}
+		})
+		env.Eval(1)
+		o.panicked, o.dead = out.Panicked, out.Dead
+		if out.Panicked {
+			env.Violatef("C19/panic@"+out.Site+"/LiteralInfoOf", "LiteralInfoOf(uri=%q type=%q) panicked: %s", uri, t, out.PanicMsg)
+		}
+		return o
+	}
+	parseBare := func() obs {
+		var o obs
+		out := env.Guard("LiteralInfoFromURI "+uri, func() {
+			lit, err := reference.LiteralInfoFromURI(uri)
+			o.err = err
+			if err == nil {
+				tt, has := lit.Type()
+				o.typ, o.hasT, o.str = string(tt), has, lit.URIString()
+			}
+		})
+		env.Eval(1)
+		o.panicked, o.dead = out.Panicked, out.Dead
+		return o
+	}
+	bare0 := parseBare()
+	if bare0.panicked || bare0.dead || bare0.err != nil {
+		return
+	}
+	for _, t := range []string{"Patient", "", "Observation", "Patient", "Group"} {
+		o := parseRef(t)
+		if o.panicked || o.dead {
+			return
+		}
+		wantErr := uriType != "" && t != "" && t != uriType
+		wantType := uriType
+		if uriType == "" {
+			wantType = t
+		}
+		d := fmt.Sprintf("LiteralInfoOf(uri=%q, type=%q)", uri, t)
+		switch {
+		case wantErr && o.err == nil:
+			env.Violatef("C19/weak/inconsistent-type-accepted", "%s must fail (the uri names a %s), returned type %q", d, uriType, o.typ)
+		case wantErr && !errors.Is(o.err, reference.ErrTypeInconsistent):
+			env.Violatef("C19/weak/wrong-error", "%s: expected ErrTypeInconsistent, got %v", d, o.err)
+		case !wantErr && o.err != nil:
+			env.Violatef("C19/weak/rejected", "%s failed: %v", d, o.err)
+		case !wantErr && (o.typ != wantType || o.hasT != (wantType != "") || o.str != bare0.str):
+			env.Violatef("C19/weak/wrong-information", "%s = {type %q (present %v), uri %q}, expected {type %q, uri %q}", d, o.typ, o.hasT, o.str, wantType, bare0.str)
+		}
+		b := parseBare()
+		if b.err != nil || b.typ != bare0.typ || b.hasT != bare0.hasT || b.str != bare0.str {
+			env.Violatef("C19/parse/history-dependent", "LiteralInfoFromURI(%q) answered {type %q present %v, uri %q} at first and {type %q present %v, uri %q, err %v} after %s", uri, bare0.typ, bare0.hasT, bare0.str, b.typ, b.hasT, b.str, b.err, d)
+			return
+		}
+	}
+}
+
+func replayC19Weak(env *core.Env, a []json.RawMessage) {
+	var uri, ut string
+	var nr bool
+	json.Unmarshal(a[0], &uri)
+	json.Unmarshal(a[1], &ut)
+	json.Unmarshal(a[2], &nr)
+	c19Weak(env, uri, ut, nr)
 }
 
 func c19CanonRaw(env *core.Env, text string) {
